@@ -10,12 +10,14 @@ import (
 	"testing"
 	"time"
 
+	"github.com/fsnotify/fsnotify"
 	"github.com/miekg/dns"
 	"pgregory.net/rapid"
 
 	"github.com/facebookincubator/dns/dnsrocks/db"
 	"github.com/facebookincubator/dns/dnsrocks/dnsdata/rdb"
 	"github.com/facebookincubator/dns/dnsrocks/dnsserver"
+	"github.com/facebookincubator/dns/dnsrocks/fbserver"
 
 	"dsim/core"
 	"dsim/gen"
@@ -50,7 +52,24 @@ type SrvOp struct {
 	SamePath int `json:"same_path,omitempty"`
 	SleepMs  int `json:"sleep_ms,omitempty"`
 	JumpS    int `json:"jump_s,omitempty"`
+	// Proc mode only. Via: how a partial reload is asked for: 0 = a file-system event for the served
+	// path (the -watchdb loop), 1 = the control file "reload", 2 = SIGHUP (Server.ReloadDB). Full
+	// reloads always travel through the control file "switchdb". EvDup extra events (Write, Chmod)
+	// follow the first one, as inotify reports them for one publication.
+	Via   int `json:"via,omitempty"`
+	EvDup int `json:"ev_dup,omitempty"`
 }
+
+// FsEv is one spurious file-system event of proc mode.
+type FsEv struct {
+	PauseMs int `json:"pause_ms"`
+	// 0 the served database path, 1 another file next to it, 2 control file "reload" (not present),
+	// 3 an unknown file in the control directory, 4 control file "switchdb" (whatever is on disk)
+	Target int `json:"target"`
+	Op     int `json:"op"` // index into fsOps
+}
+
+var fsOps = []fsnotify.Op{fsnotify.Create, fsnotify.Write, fsnotify.Rename, fsnotify.Chmod, fsnotify.Remove}
 
 // Label names the reload class.
 func (o SrvOp) Label(timeoutMs int) string {
@@ -95,7 +114,17 @@ type SrvScenario struct {
 	// Signals are partial-reload signals sent through ReloadChan by a task of their own, the way
 	// Server.ReloadDB (SIGHUP) does: each after the given pause in ms, whatever the operator is doing
 	// (needs ViaChan)
-	Signals  []int   `json:"signals,omitempty"`
+	Signals []int `json:"signals,omitempty"`
+	// Proc: the handler lives in a real fbserver.Server as in cmd/dnsrocks: reload requests travel as
+	// files plus file-system events through the real watcher loops (on simulated event channels), as
+	// SIGHUP through Server.ReloadDB; Server.LogMapAge and Server.DumpBackendStats run on their tickers;
+	// a watcher that fails shuts the server down (Server.WatchDBAndReload); shutdown is Server.Shutdown.
+	Proc    bool   `json:"proc,omitempty"`
+	FsNoise []FsEv `json:"fs_noise,omitempty"`
+	// WatchErrMs > 0: after that many ms the error channel of a watcher (WatchErrOn: 0 database, 1 control
+	// directory) delivers an error, as inotify does on a queue overflow
+	WatchErrMs int `json:"watch_err_ms,omitempty"`
+	WatchErrOn int `json:"watch_err_on,omitempty"`
 	Tape     []uint8 `json:"tape"`
 	TapeSeed uint64  `json:"tape_seed"`
 	Calm     int     `json:"calm"`
@@ -140,6 +169,9 @@ type SrvHistory struct {
 	RunErr  error
 	Closed  bool
 	InitGen int
+	// proc mode
+	Shutdowns   int      // calls of Server.Shutdown that returned
+	WatcherDied []string // watcher loops that returned an error nobody injected
 }
 
 func srvDriver(backend string) string {
@@ -272,10 +304,32 @@ func runSrv(t *testing.T, sc *SrvScenario, keep bool, res *core.Result, hooks *s
 			res.HarnessErr = "create: " + err.Error()
 			return
 		}
-		inner, err := db.VerifOpenDBI(p0, srvDriver(sc.Backend))
-		if err != nil {
-			res.HarnessErr = "open: " + err.Error()
-			return
+		dbc := dnsserver.DBConfig{Path: p0, Driver: srvDriver(sc.Backend), ReloadTimeout: time.Duration(sc.TimeoutMs) * time.Millisecond,
+			ValidationKey: gen.ValidationKey(w.v2)}
+		cc := dnsserver.CacheConfig{Enabled: sc.Cache, LRUSize: sc.LRUSize, WRSTimeout: int64(sc.WRSTimeout)}
+		var fb *dnsserver.FBDNSDB
+		var srv *fbserver.Server
+		var inner db.DBI
+		var err error
+		ctlDir := filepath.Join(dir, "ctl")
+		if sc.Proc {
+			if err = os.MkdirAll(ctlDir, 0o755); err != nil {
+				res.HarnessErr = err.Error()
+				return
+			}
+			conf := fbserver.NewServerConfig()
+			dbc.ControlPath = ctlDir
+			conf.DBConfig, conf.CacheConfig = dbc, cc
+			// NewServer builds the handler (with its ReloadChan loop) and opens the database, as in cmd/dnsrocks
+			srv = fbserver.NewServer(conf, logger, rst, nullExporter{})
+			fb = srv.VerifDB()
+			inner = db.VerifDBI(fb.VerifDB())
+		} else {
+			inner, err = db.VerifOpenDBI(p0, srvDriver(sc.Backend))
+			if err != nil {
+				res.HarnessErr = "open: " + err.Error()
+				return
+			}
 		}
 		b0 := m.Wrap(inner, p0)
 		var derive func(nb *mon.Backend, in db.DBI, path string)
@@ -293,20 +347,19 @@ func runSrv(t *testing.T, sc *SrvScenario, keep bool, res *core.Result, hooks *s
 		derive = func(nb *mon.Backend, in db.DBI, path string) { setCatch(nb, path) }
 		setCatch(b0, p0)
 
-		dbc := dnsserver.DBConfig{Path: p0, Driver: srvDriver(sc.Backend), ReloadTimeout: time.Duration(sc.TimeoutMs) * time.Millisecond,
-			ValidationKey: gen.ValidationKey(w.v2)}
-		cc := dnsserver.CacheConfig{Enabled: sc.Cache, LRUSize: sc.LRUSize, WRSTimeout: int64(sc.WRSTimeout)}
-		var fb *dnsserver.FBDNSDB
-		if sc.ViaChan {
-			fb, err = dnsserver.NewFBDNSDB(dnsserver.HandlerConfig{}, dbc, cc, logger, rst)
-		} else {
-			fb, err = dnsserver.NewFBDNSDBBasic(dnsserver.HandlerConfig{}, dbc, cc, logger, rst)
-		}
-		if err != nil {
-			res.HarnessErr = err.Error()
-			return
+		if !sc.Proc {
+			if sc.ViaChan {
+				fb, err = dnsserver.NewFBDNSDB(dnsserver.HandlerConfig{}, dbc, cc, logger, rst)
+			} else {
+				fb, err = dnsserver.NewFBDNSDBBasic(dnsserver.HandlerConfig{}, dbc, cc, logger, rst)
+			}
+			if err != nil {
+				res.HarnessErr = err.Error()
+				return
+			}
 		}
 		fb.VerifSetDB(db.VerifNewDB(b0))
+		viaChan := sc.ViaChan || sc.Proc
 
 		closing := false
 		inflight := 0
@@ -363,11 +416,15 @@ func runSrv(t *testing.T, sc *SrvScenario, keep bool, res *core.Result, hooks *s
 			})
 		}
 
-		if sc.PeriodicS > 0 && sc.ViaChan {
-			s.Go("periodic", true, func() { fb.PeriodicDBReload(sc.PeriodicS) })
+		if sc.PeriodicS > 0 && viaChan {
+			if sc.Proc {
+				s.Go("periodic", true, func() { srv.PeriodicDBReload(sc.PeriodicS) })
+			} else {
+				s.Go("periodic", true, func() { fb.PeriodicDBReload(sc.PeriodicS) })
+			}
 		}
 		quit := make(chan struct{})
-		if len(sc.Signals) > 0 && sc.ViaChan {
+		if len(sc.Signals) > 0 && viaChan {
 			s.Go("signaller", true, func() {
 				for _, ms := range sc.Signals {
 					if ms > 0 {
@@ -395,7 +452,133 @@ func runSrv(t *testing.T, sc *SrvScenario, keep bool, res *core.Result, hooks *s
 			})
 		}
 
+		// ---- proc mode: the goroutines cmd/dnsrocks starts around the server -------------------------
+		type fsWatch struct {
+			ev   chan fsnotify.Event
+			er   chan error
+			gone chan struct{} // closed when the watcher loop has returned
+		}
+		var dbW, ctlW *fsWatch
+		hup := make(chan struct{})
+		emit := func(fw *fsWatch, name string, op fsnotify.Op) bool {
+			select {
+			case fw.ev <- fsnotify.Event{Name: name, Op: op}:
+				res.Fault("fs-event")
+				s.Y("fs.sent")
+				return true
+			case <-fw.gone:
+				return false
+			case <-quit:
+				return false
+			}
+		}
+		// doShutdown is what cmd/dnsrocks does on SIGTERM and what Server.WatchDBAndReload /
+		// WatchControlDirAndReload do when their watcher fails: Server.Shutdown. The listeners (not
+		// started here) are shut first, which drains the handlers in flight.
+		doShutdown := func(rec *OpRec) {
+			closing = true
+			s.Yield("close.drain", func() bool { return inflight == 0 })
+			if rec != nil {
+				rec.Inv = s.Seq()
+			}
+			srv.Shutdown()
+			if rec != nil {
+				rec.Ret = s.Seq()
+				rec.Done = true
+			}
+			h.Closed = true
+			h.Shutdowns++
+			res.Fault("shutdown")
+		}
+		if sc.Proc {
+			watcherErrInjected := map[string]bool{}
+			startWatcher := func(name string, loop func(chan fsnotify.Event, chan error) error) *fsWatch {
+				fw := &fsWatch{ev: make(chan fsnotify.Event), er: make(chan error), gone: make(chan struct{})}
+				s.Go(name, true, func() {
+					err := loop(fw.ev, fw.er)
+					close(fw.gone)
+					if err != nil {
+						if !watcherErrInjected[name] {
+							h.WatcherDied = append(h.WatcherDied, name+": "+err.Error())
+						}
+						// fbserver.Server.WatchDBAndReload / WatchControlDirAndReload: "If watcher fails - shutdown"
+						res.Probe("shutdown_by_failed_watcher")
+						doShutdown(nil)
+					}
+				})
+				return fw
+			}
+			dbW = startWatcher("watchdb", fb.VerifWatchDB)
+			ctlW = startWatcher("watchctl", fb.VerifWatchControlDir)
+			s.Go("mapage", true, srv.LogMapAge)
+			s.Go("backendstats", true, srv.DumpBackendStats)
+			s.Go("sighup", true, func() {
+				for {
+					select {
+					case <-hup:
+						s.Y("sighup.received")
+						srv.ReloadDB() // blocks for good once the server is closed: nobody receives
+					case <-quit:
+						return
+					}
+				}
+			})
+			if len(sc.FsNoise) > 0 {
+				s.Go("fsnoise", true, func() {
+					for _, e := range sc.FsNoise {
+						if e.PauseMs > 0 {
+							s.Sleep(time.Duration(e.PauseMs) * time.Millisecond)
+						} else {
+							s.Y("fsnoise.next")
+						}
+						op := fsOps[e.Op%len(fsOps)]
+						ok := true
+						switch e.Target {
+						case 0:
+							ok = emit(dbW, fb.VerifDBPath(), op)
+						case 1:
+							ok = emit(dbW, filepath.Join(dir, "unrelated.tmp"), op)
+						case 2:
+							ok = emit(ctlW, filepath.Join(ctlDir, dnsserver.ControlFilePartialReload), op)
+						case 3:
+							ok = emit(ctlW, filepath.Join(ctlDir, "README"), op)
+						default:
+							ok = emit(ctlW, filepath.Join(ctlDir, dnsserver.ControlFileFullReload), op)
+						}
+						if ok {
+							res.Fault("fs-event-spurious")
+						}
+					}
+				})
+			}
+			if sc.WatchErrMs > 0 {
+				s.Go("inotifyerr", true, func() {
+					s.Sleep(time.Duration(sc.WatchErrMs) * time.Millisecond)
+					fw, name := dbW, "watchdb"
+					if sc.WatchErrOn == 1 {
+						fw, name = ctlW, "watchctl"
+					}
+					watcherErrInjected[name] = true
+					select {
+					case fw.er <- errors.New("simulated inotify queue overflow"):
+						res.Fault("watcher-error")
+					case <-fw.gone:
+					case <-quit:
+					}
+				})
+			}
+		}
+
 		s.Go("operator", false, func() {
+			// in proc mode the tickers of LogMapAge / DumpBackendStats (10 s) must fire at least once
+			// after the last operation, shutdown included
+			linger := func() {
+				if sc.Proc {
+					s.Sleep(10500 * time.Millisecond)
+					s.Sleep(10500 * time.Millisecond)
+				}
+			}
+			defer linger()
 			prevPath := ""
 			lastFailedFull := ""
 			servedPath := p0
@@ -415,6 +598,13 @@ func runSrv(t *testing.T, sc *SrvScenario, keep bool, res *core.Result, hooks *s
 					res.Fault("clock-jump")
 					continue
 				case "close":
+					if sc.Proc {
+						if h.Closed {
+							res.Probe("second_shutdown")
+						}
+						doShutdown(rec)
+						return
+					}
 					closing = true
 					s.Yield("close.drain", func() bool { return inflight == 0 })
 					rec.Inv = s.Seq()
@@ -424,6 +614,12 @@ func runSrv(t *testing.T, sc *SrvScenario, keep bool, res *core.Result, hooks *s
 					h.Closed = true
 					res.Fault("shutdown")
 					return
+				}
+				if sc.Proc && h.Closed {
+					// a watcher failed and shut the server down: nothing can be asked of it any more
+					rec.Done = true
+					rec.Err = errServerGone
+					continue
 				}
 				g := 2 + i
 				rec.Gen = g
@@ -501,11 +697,58 @@ func runSrv(t *testing.T, sc *SrvScenario, keep bool, res *core.Result, hooks *s
 				okBefore := rst.get("DNS_db.reload")
 				toBefore, vkBefore := rst.get("DNS_db.ErrReloadTimeout"), rst.get("DNS_db.ErrValidationKeyNotFound")
 				rec.Inv = s.Seq()
-				if sc.ViaChan {
+				if viaChan {
 					before := m.Reloads
-					fb.ReloadChan <- sig
+					rounds := 10000
+					if sc.Proc {
+						// the request travels as the operator's tooling sends it: a control file written
+						// atomically plus the event inotify reports for it, an event for the database path, or SIGHUP
+						rounds = 30
+						sent := false
+						switch {
+						case o.Full:
+							tmp := filepath.Join(ctlDir, "."+dnsserver.ControlFileFullReload)
+							ctl := filepath.Join(ctlDir, dnsserver.ControlFileFullReload)
+							if perr = os.WriteFile(tmp, []byte(sig.Payload+"\n"), 0o644); perr == nil {
+								perr = os.Rename(tmp, ctl)
+							}
+							sent = emit(ctlW, ctl, fsnotify.Create)
+							res.Probe("reload_requested_by_switchdb_file")
+						case o.Via%3 == 1:
+							ctl := filepath.Join(ctlDir, dnsserver.ControlFilePartialReload)
+							perr = os.WriteFile(ctl, nil, 0o644)
+							sent = emit(ctlW, ctl, fsnotify.Create)
+							res.Probe("reload_requested_by_reload_file")
+						case o.Via%3 == 2:
+							select {
+							case hup <- struct{}{}:
+								sent = true
+								res.Probe("reload_requested_by_sighup")
+							case <-quit:
+							}
+						default:
+							first := fsnotify.Create
+							if sc.Backend != "cdb" {
+								first = fsnotify.Chmod // a directory that was touched
+							}
+							sent = emit(dbW, served, first)
+							for d := 0; sent && d < o.EvDup; d++ {
+								emit(dbW, served, []fsnotify.Op{fsnotify.Write, fsnotify.Chmod}[d%2])
+							}
+							res.Probe("reload_requested_by_db_event")
+						}
+						if perr != nil {
+							res.HarnessErr = fmt.Sprintf("control file for op %d: %v", i, perr)
+							return
+						}
+						if !sent {
+							rounds = 0
+						}
+					} else {
+						fb.ReloadChan <- sig
+					}
 					s.Y("operator.sent")
-					for k := 0; k < 10000 && !(m.Reloads > before && fb.VerifIdle()); k++ {
+					for k := 0; k < rounds && !(m.Reloads > before && fb.VerifIdle()) && !(sc.Proc && h.Closed); k++ {
 						s.Sleep(time.Duration(sc.TimeoutMs+211) * time.Millisecond)
 					}
 					// the outcome is the server's own success counter
@@ -592,11 +835,15 @@ func runSrv(t *testing.T, sc *SrvScenario, keep bool, res *core.Result, hooks *s
 				fb.Close()
 			}()
 		}
+		if sc.Proc {
+			s.Freeze() // LogMapAge and DumpBackendStats loop on tickers nobody can stop
+		}
 	})
 	return h
 }
 
 var errUnknownViaChan = errors.New("outcome not observable through ReloadChan")
+var errServerGone = errors.New("the server had been shut down by a failed watcher")
 
 func panicClass(p string) string {
 	switch {
@@ -626,6 +873,7 @@ type srvDrawOpts struct {
 	stats      bool
 	ecs        bool
 	badvers    bool
+	proc       int // one run in proc is a proc-mode run (0 = never)
 }
 
 func drawSrv(rt *rapid.T, o srvDrawOpts) SrvScenario {
@@ -703,6 +951,29 @@ func drawSrv(rt *rapid.T, o srvDrawOpts) SrvScenario {
 	if o.stats && rapid.IntRange(0, 2).Draw(rt, "stats") == 2 {
 		sc.StatsEvery = rapid.SampledFrom([]int{13, 47, 103}).Draw(rt, "stats_every")
 	}
+	if o.proc > 0 && rapid.IntRange(1, o.proc).Draw(rt, "proc") == 1 {
+		sc.Proc = true
+		sc.ViaChan = true
+		for i := range sc.Ops {
+			if sc.Ops[i].Kind != "reload" {
+				continue
+			}
+			sc.Ops[i].Via = rapid.IntRange(0, 2).Draw(rt, "via")
+			if o.signals {
+				sc.Ops[i].EvDup = rapid.SampledFrom([]int{0, 0, 1, 2}).Draw(rt, "ev_dup")
+			}
+		}
+		if o.signals && rapid.Bool().Draw(rt, "fs_noise") {
+			sc.FsNoise = rapid.SliceOfN(rapid.Custom(func(rt *rapid.T) FsEv {
+				return FsEv{PauseMs: rapid.SampledFrom([]int{0, 0, 3, 29, 71, 503, 2003}).Draw(rt, "pause"),
+					Target: rapid.SampledFrom([]int{0, 0, 1, 2, 3, 3, 4}).Draw(rt, "target"), Op: rapid.IntRange(0, len(fsOps)-1).Draw(rt, "op")}
+			}), 1, 6).Draw(rt, "noise")
+		}
+		if o.signals && o.closeOp && rapid.IntRange(0, 3).Draw(rt, "watch_err") == 0 {
+			sc.WatchErrMs = rapid.SampledFrom([]int{1, 37, 113, 1009, 5003}).Draw(rt, "watch_err_ms")
+			sc.WatchErrOn = rapid.IntRange(0, 1).Draw(rt, "watch_err_on")
+		}
+	}
 	sc.Tape = rapid.SliceOfN(rapid.Uint8(), 0, 160).Draw(rt, "tape")
 	return sc
 }
@@ -722,5 +993,5 @@ func summarySrv(sc SrvScenario) interface{} {
 		cl = append(cl, strings.Join(s, " "))
 	}
 	return map[string]interface{}{"backend": sc.Backend, "cache": sc.Cache, "lru": sc.LRUSize, "operator": ops, "clients": cl,
-		"via_chan": sc.ViaChan, "periodic_s": sc.PeriodicS, "async_signals": len(sc.Signals), "tape_len": len(sc.Tape)}
+		"via_chan": sc.ViaChan, "proc": sc.Proc, "fs_noise": len(sc.FsNoise), "watch_err_ms": sc.WatchErrMs, "periodic_s": sc.PeriodicS, "async_signals": len(sc.Signals), "tape_len": len(sc.Tape)}
 }
